@@ -22,7 +22,7 @@ TLSLists == { <<"RSA_AES128_GCM">>, <<"ECDHE_RSA_AES128_GCM", "RSA_AES128_CBC">>
               <<"RSA_AES128_CBC", "ECDHE_RSA_AES256_CBC", "ECDHE_RSA_CHACHA">>, <<"ECDHE_RSA_CHACHA", "RSA_AES128_GCM">> }
 
 Auths == {"none", "request", "requireany", "verifyifgiven", "requireandverify"}
-CCerts == {"none", "good", "untrusted", "chain"}   \* chain: issued by an intermediate CA under a trusted root, sent with that intermediate      \* client certificate: absent / issued by a CA the server trusts /
+CCerts == {"none", "good", "untrusted", "chain", "chain_leaf"}   \* (chain_leaf: the same chain, given with its parsed leaf - Certificate.Leaf - filled in)   \* chain: issued by an intermediate CA under a trusted root, sent with that intermediate      \* client certificate: absent / issued by a CA the server trusts /
                                              \* same issuer NAME but signed by another key (so it is sent, and fails verification)
 VARIABLES c, done
 
@@ -46,7 +46,7 @@ Usable(x) == FilterSeq(Common(x), LAMBDA s : Proto(x) = "tls" \/ s \in GMImpl)
 
 \* does the client send a certificate, and can the server verify it?
 Sent(x) == x.auth # "none" /\ x.ccert # "none"
-Verifiable(x) == x.ccert \in {"good", "chain"}
+Verifiable(x) == x.ccert \in {"good", "chain", "chain_leaf"}
 AuthOK(x) == CASE x.auth = "none" -> TRUE
                [] x.auth = "request" -> TRUE
                [] x.auth = "requireany" -> Sent(x)
@@ -65,9 +65,9 @@ Outcome(x) ==
         clientcert |-> IF Sent(x) THEN x.ccert ELSE "none"]
 
 GMConfigs == [smode : {"gm", "auto"}, ckind : {"gm"}, csuites : GMLists, ssuites : GMLists, prefer : BOOLEAN,
-              auth : Auths, ccert : CCerts, source : {"static", "callbacks"}, tickets : BOOLEAN]
+              auth : Auths, ccert : CCerts, source : {"static", "callbacks", "mixed"}, tickets : BOOLEAN]
 TLSConfigs == [smode : {"auto", "tls"}, ckind : {"tls"}, csuites : TLSLists, ssuites : TLSLists, prefer : BOOLEAN,
-               auth : Auths, ccert : CCerts, source : {"static", "callbacks"}, tickets : BOOLEAN]
+               auth : Auths, ccert : CCerts, source : {"static", "callbacks", "mixed"}, tickets : BOOLEAN]
 Mismatch == [smode : {"gm"}, ckind : {"tls"}, csuites : {<<"RSA_AES128_GCM">>}, ssuites : {<<>>}, prefer : {FALSE},
              auth : {"none"}, ccert : {"none"}, source : {"static"}, tickets : {TRUE}] \cup
             [smode : {"tls"}, ckind : {"gm"}, csuites : {<<>>}, ssuites : {<<"RSA_AES128_GCM">>}, prefer : {FALSE},
@@ -76,8 +76,11 @@ Mismatch == [smode : {"gm"}, ckind : {"tls"}, csuites : {<<"RSA_AES128_GCM">>}, 
 \* server is built by NewBasicAutoSwitchConfig (GetCertificate + GetKECertificate callbacks), the TLS server both
 \* (an auto-switch server configured by hand with the static certificate pair can only serve GMSSL clients: the
 \* static list has one slot for the signing certificate; that half is part of the table)
+\* "mixed": an auto-switch server with the RSA certificate in the static list (for TLS clients) and the two SM2 certificates
+\* behind the GetCertificate / GetKECertificate callbacks (for GMSSL clients)
 Valid(x) == /\ (x.smode = "gm" => x.source = "static")
-            /\ (x.smode = "auto" => (x.source = "callbacks" \/ x.ckind = "gm"))
+            /\ (x.smode = "auto" => (x.source \in {"callbacks", "mixed"} \/ x.ckind = "gm"))
+            /\ (x.source = "mixed" => x.smode = "auto")
 Configs == {x \in GMConfigs \cup TLSConfigs \cup Mismatch : Valid(x)}
 
 \* Interoperability with an independent TLS 1.0-1.2 implementation (the Go standard library crypto/tls):
@@ -98,5 +101,5 @@ Spec == Init /\ [][Next]_<<c, done>>
 \* sanity of the table itself
 Sane == "kind" \in DOMAIN c \/ LET o == Outcome(c) IN
         /\ (o.result = "complete" => o.suite \in Range(Eff(c.csuites, o.proto)) \cap Range(Eff(c.ssuites, o.proto)))
-        /\ (c.auth = "requireandverify" /\ o.result = "complete" => c.ccert \in {"good", "chain"})
+        /\ (c.auth = "requireandverify" /\ o.result = "complete" => c.ccert \in {"good", "chain", "chain_leaf"})
 =============================================================================
